@@ -283,12 +283,39 @@ def build_dirk(verif=False):
     return out
 
 
+def fork_decorated(sc):
+    """The 28 bytes after a signing domain's type (fork version, genesis validators root) are not looked at by any rule; over a
+    validator's lifetime they change.  In every other scenario (chosen by a digest of its id) the requests alternate between three
+    such 'forks', so that a request and the conflicting request that follows it differ in them; the rest keep one fork throughout."""
+    import zlib
+    if not isinstance(sc, dict) or not sc.get("ops") or zlib.crc32(str(sc.get("id", "")).encode()) % 2 == 0:
+        return sc
+    out = dict(sc)
+    n = [0]
+
+    def deco(ops):
+        res = []
+        for op in ops:
+            op = dict(op)
+            if op.get("ops"):
+                op["ops"] = deco(op["ops"])
+            elif op.get("ents") is not None and "fork" not in op:
+                op["fork"] = n[0] % 3
+                n[0] += 1
+            res.append(op)
+        return res
+    out["ops"] = deco(sc["ops"])
+    return out
+
+
 def run_driver(scenarios, wd, tag="drv", timeout=600, target="dirkdrv", env=None, allow_exit=(0,), dirk=None):
     """Run the child driver on a list of scenarios; returns (events, returncode).  dirk: path of the real dirk binary - the scenarios
     are then run against the shipped program over TLS (signing ops, restart = SIGKILL + new process, kill_after_us)."""
     exe = build_harness(target)
     sf = os.path.join(wd, tag + ".scenarios.json")
     of = os.path.join(wd, tag + ".trace.ndjson")
+    if target == "dirkdrv":
+        scenarios = [fork_decorated(sc) for sc in scenarios]
     with open(sf, "w") as fh:
         json.dump(scenarios, fh)
     e = dict(os.environ)
